@@ -236,8 +236,15 @@ pub fn run(report: &Report, thorough: bool) -> Evidence {
                     continue;
                 }
               for edit2 in &second {
-               for with_mid in [false, true] {
-                if with_mid && !(edit2.is_none() && *edit != Edit::None && befores[bi].len() <= 1 && c1.is_phonetic() && c2.is_phonetic()) {
+               // 0: none; 1: an intermediate update with the list flipped; 2: a round trip through the OTHER method (phonetic ->
+               // Probhat -> phonetic, fixed -> phonetic -> fixed) after the edit: whatever the context keeps of the method it
+               // leaves must not come back when it returns
+               for mid in [0u8, 1, 2] {
+                let with_mid = mid != 0;
+                if mid == 1 && !(edit2.is_none() && *edit != Edit::None && befores[bi].len() <= 1 && c1.is_phonetic() && c2.is_phonetic()) {
+                    continue;
+                }
+                if mid == 2 && !(edit2.is_none() && befores[bi].len() <= 1 && c1.is_phonetic() == c2.is_phonetic() && (c1.is_phonetic() || *edit == Edit::None)) {
                     continue;
                 }
                 for cont in &conts {
@@ -281,7 +288,12 @@ pub fn run(report: &Report, thorough: bool) -> Evidence {
                     // be lost between two updates. For short histories and one continuation per edit, phonetic -> phonetic.
                     if with_mid {
                         let mut cm = c2.clone();
-                        cm.psugg = !cm.psugg;
+                        if mid == 1 {
+                            cm.psugg = !cm.psugg;
+                        } else {
+                            cm = if c2.is_phonetic() { fx_def.clone() } else { ph_def.clone() };
+                            cm.xdg = xdg.clone();
+                        }
                         let upm = Ev::Update(Box::new(cm));
                         evs.push(upm.clone());
                         if let Err(f) = live.apply(&upm) {
